@@ -14,6 +14,8 @@ import (
 	"unsafe"
 
 	"golang.org/x/tools/go/ssa"
+
+	"gosym/smt"
 )
 
 // runtimePanic is a Go run-time panic of the target program (index out of
@@ -360,6 +362,11 @@ func (i *interpreter) toInt(v value) value {
 func (i *interpreter) lookup(instr *ssa.Lookup, x, idx value) value {
 	switch x := x.(type) { // map
 	case *smap:
+		if isSym(idx) && x != nil && x.n > 1 {
+			if v, ok := i.lookupSelect(instr, x, idx); ok {
+				return v
+			}
+		}
 		v, ok := x.lookup(i, idx)
 		if !ok {
 			v = zero(instr.X.Type().Underlying().(*types.Map).Elem())
@@ -1309,12 +1316,22 @@ func (i *interpreter) conv(t_dst, t_src types.Type, x value) value {
 				case types.Byte:
 					return bytesToStr(xv)
 				case types.Rune:
-					// []rune -> string with symbolic runes: enumerate
-					r := make([]rune, 0, len(xv))
+					// []rune -> string: UTF-8 encode with the program's own
+					// utf8.AppendRune so symbolic runes fork on width classes only
+					anySym := false
 					for k := range xv {
-						r = append(r, i.concretize(xv[k], "[]rune to string").(rune))
+						if isSym(xv[k]) {
+							anySym = true
+						}
 					}
-					return string(r)
+					if !anySym {
+						break
+					}
+					var buf value = []value(nil)
+					for k := range xv {
+						buf = i.callByName(nil, "unicode/utf8", "AppendRune", []value{buf, xv[k]})
+					}
+					return bytesToStr(buf.([]value))
 				}
 			}
 		}
@@ -1758,4 +1775,58 @@ func (i *interpreter) dataOf(p value) []value {
 		panic(engineErrorf("unsafe pointer of unknown provenance"))
 	}
 	return back
+}
+
+// lookupSelect implements m[k] for a symbolic key without forking when the
+// map's values are scalars (or empty structs): the result and the "ok" flag
+// become if-then-else / disjunction terms over the key comparisons.
+func (i *interpreter) lookupSelect(instr *ssa.Lookup, m *smap, key value) (value, bool) {
+	tElem := instr.X.Type().Underlying().(*types.Map).Elem()
+	emptyStruct := false
+	if st, ok := tElem.Underlying().(*types.Struct); ok && st.NumFields() == 0 {
+		emptyStruct = true
+	} else if b, ok := tElem.Underlying().(*types.Basic); !ok || b.Info()&(types.IsBoolean|types.IsInteger|types.IsFloat) == 0 {
+		return nil, false
+	}
+	var eqs []value
+	var live []*mentry
+	for _, e := range m.entries {
+		if e.deleted {
+			continue
+		}
+		eq := i.equalsV(m.keyType, key, e.key)
+		if b, ok := eq.(bool); ok && !b {
+			continue
+		}
+		eqs = append(eqs, eq)
+		live = append(live, e)
+	}
+	okv := orS(eqs...)
+	var val value
+	if emptyStruct {
+		val = structure{}
+	} else {
+		z := zero(tElem)
+		cv := z
+		acc := termOf(z)
+		for k := len(live) - 1; k >= 0; k-- {
+			var c bool
+			var ct *smt.Term
+			switch eq := eqs[k].(type) {
+			case bool:
+				c, ct = eq, smt.BoolConst(eq)
+			case sym:
+				c, ct = eq.c.(bool), eq.t
+			}
+			acc = smt.Ite(ct, termOf(live[k].val), acc)
+			if c {
+				cv = conc(live[k].val)
+			}
+		}
+		val = mkSym(cv, acc)
+	}
+	if instr.CommaOk {
+		return tuple{val, okv}, true
+	}
+	return val, true
 }
